@@ -5,4 +5,5 @@ INVARIANT DropSuppresses
 INVARIANT RejectClean
 INVARIANT BadAuthClean
 INVARIANT LifecycleOnce
+INVARIANT DnsFirstWins
 CHECK_DEADLOCK FALSE
